@@ -4,7 +4,10 @@ what each check answered into seeded/<ID>/meta.json (key 'confirmed'); prints a 
 import sys, re, json, os
 V = os.path.dirname(os.path.dirname(os.path.abspath(__file__)))
 rows = {}
-for log in sys.argv[1:]:
+TIER = 'quick'
+args = sys.argv[1:]
+if '--tier' in args: TIER = args[args.index('--tier') + 1]; del args[args.index('--tier'):args.index('--tier') + 2]
+for log in args:
     cur = None
     for line in open(log):
         m = re.match(r'=== (\S+) \((.*)\)', line)
@@ -16,16 +19,17 @@ for log in sys.argv[1:]:
         if m: rows[cur]['baseline_missing'] = int(m.group(3)); continue
         if line.startswith('PATCH DOES NOT APPLY'): rows[cur]['patch'] = 'does not apply to current HEAD'; continue
         m = re.match(r'(C\d+): exit (\d+), (\d+) new violation signature', line)
-        if m: rows[cur].setdefault('checks', {})[m.group(1)] = dict(exit=int(m.group(2)), new_signatures=int(m.group(3)), tier='quick')
+        if m: rows[cur].setdefault('checks', {}).setdefault(m.group(1), {})[TIER] = dict(exit=int(m.group(2)), new_signatures=int(m.group(3)))
 for sid, r in sorted(rows.items()):
     p = os.path.join(V, 'seeded', sid, 'meta.json')
     if not os.path.exists(p): continue
     meta = json.load(open(p))
     conf = meta.setdefault('confirmed', {})
     for k, v in r.items():
-        if k == 'checks': conf.setdefault('checks', {}).update(v)
+        if k == 'checks':
+            for ck, tv in v.items(): conf.setdefault('checks', {}).setdefault(ck, {}).update(tv)
         else: conf[k] = v
     conf['how'] = 'tools/seed_eval.py in a scratch worktree of /repo HEAD: demo on clean and patched tree, tools/baseline.py on the patched tree, named checks with VF_REPO=<worktree>'
     json.dump(meta, open(p, 'w'), indent=1)
-    caught = [c for c, v in conf.get('checks', {}).items() if v['exit'] == 1]
+    caught = ['%s(%s)' % (c, t) for c, tv in conf.get('checks', {}).items() for t, v in tv.items() if v['exit'] == 1]
     print('%-7s demo %s/%s baseline_missing=%s caught_by=%s' % (sid, conf.get('demo_clean'), conf.get('demo_patched'), conf.get('baseline_missing'), ','.join(caught) or '-'))
